@@ -23,6 +23,7 @@ ASSUMPTIONS = ['positions and literal kinds are those of mc/gen/hoist.py; at mos
 NPARTS = 64
 H = 'hoist_literals'
 EXTRA = ['rename_locals', 'rename_globals', 'remove_literal_statements', 'constant_folding']
+ANN = frozenset(['remove_variable_annotations', 'remove_class_attribute_annotations'])
 
 
 def option_sets(tier):
@@ -151,7 +152,11 @@ def run_task(task):
         res.count('programs')
         ref = observe.run(code)
         seen = set()
-        for on in sets:
+        psets = sets
+        if 'annassign' in label:
+            # annotated assignments are rebuilt by the annotation-removing transform before literals are counted: cross with it
+            psets = sets + [s | ANN for s in sets]
+        for on in psets:
             res.count('evaluations')
             if 'remove_literal_statements' in on:
                 # the reference behaviour is unchanged by removing literal statements (they have no effect) except for docstrings read back:
